@@ -1,5 +1,5 @@
 """C02 - flattening groups, transforms, use and nested svg preserves the rendering."""
-from checks.pipeline_common import doc, make_render_harness, run_template_case, nondegenerate, PIPE_OUTSIDE
+from checks.pipeline_common import replay_render, doc, make_render_harness, run_template_case, nondegenerate, PIPE_OUTSIDE
 from sx import common
 from sx.dual import replay_concrete
 from sx import fake_pathops as FP
@@ -89,7 +89,7 @@ def finding_key(case, failure):
 
 
 def replay(case, failure):
-    return replay_concrete(harness_for(case), failure, allowed_exceptions=(ValueError, ZeroDivisionError, AssertionError))
+    return replay_render(harness_for(case), failure)
 
 
 def describe(tier):
